@@ -5,7 +5,7 @@ import vcheck
 import tablelib as T
 
 GO_CMDS = T.GO_CMDS
-TRANSLATORS = []
+TRANSLATORS = T.TRANSLATORS
 COQ_PROJECTS = T.COQ_PROJECTS
 TRUSTED = T.TRUSTED
 
